@@ -29,14 +29,43 @@ def conjuncts(n):
 
 def eq_pairs(f):
     """[(left field, right field)] of `a == rhs.b` conjuncts of the returned expression."""
-    ret = [n for n in f.nodes if n.get("k") == "return"]
-    if len(ret) != 1:
+    # what has to be equal for the result to be true: the conjuncts of the final `return a == b && ...`, plus every
+    # `if (a != b) return false;` / `if (!(a == b)) return false;` guard in front of it
+    body = [f.nodes[c] for c in f.body.get("ch", [])] if f.body is not None and f.body.get("k") == "compound" else []
+    eqs = []
+    final = None
+
+    def disj(n):
+        n = core(n)
+        if n is not None and n.get("k") == "bin" and n["op"] == "||":
+            return disj(n.child("l")) + disj(n.child("r"))
+        return [n]
+    for st in body:
+        if st.get("k") == "return" and final is None:
+            final = st
+        elif st.get("k") == "if" and "else" not in st and final is None:
+            th = st.child("then")
+            th = f.nodes[th["ch"][0]] if th.get("k") == "compound" and len(th.get("ch", [])) == 1 else th
+            if th.get("k") != "return" or core(th.child("e")).get("v") is not False:
+                return None
+            for d in disj(st.child("c")):
+                if d.get("k") == "un" and d.get("op") == "!":
+                    eqs.append(("eq", core(d.child("e"))))
+                elif d.get("k") in ("bin", "call") and d.get("op") == "!=":
+                    eqs.append(("ne", d))
+                else:
+                    return None
+        else:
+            return None
+    if final is None:
         return None
+    items = [("eq", c) for c in conjuncts(final.child("e"))] + eqs
     out = []
-    for c in conjuncts(ret[0].child("e")):
-        if c.get("k") == "bin" and c["op"] == "==":
+    for kind_, c in items:
+        want_op = "==" if kind_ == "eq" else "!="
+        if c.get("k") == "bin" and c["op"] == want_op:
             l, r = core(c.child("l")), core(c.child("r"))
-        elif c.get("k") == "call" and c.get("op") == "==":
+        elif c.get("k") == "call" and c.get("op") == want_op:
             ops = ([c.child("obj")] if "obj" in c else []) + arg_nodes(c)
             l, r = core(ops[0]), core(ops[1])
         else:
